@@ -18,6 +18,8 @@ def outcome(thunk):
             v = thunk()
         return ["ok", norm(v)]
     except BaseException as e:  # noqa
+        if (type(e).__module__ or "").startswith("vmon."):
+            raise  # the harness's own signals (case watchdog, scheduler timeouts) are never outcomes of the library
         errs = getattr(e, "errors", None)
         kinds = sorted((type(x).__name__, str(getattr(x, "item", None))) for x in errs) if errs else None
         return ["err", type(e).__name__, kinds]
